@@ -197,6 +197,7 @@ def scenario_app(static_dir, variant, tlog):
               ('/json', lambda: {'a': [1, 2], 'u': u'\xe9'}, render_json),
               ('/text', lambda: u'plain \xe9 text', render_basic),
               ('/branch/', lambda: Response('branch')),
+              ('/dir/<name>/', lambda name: Response('dir')),
               ('/redir', lambda: redirect('/resp')),
               ('/raise404', raise404), ('/ret403', ret403), ('/boom', boom),
               ('/nonresp', lambda: 'just a string'),
@@ -218,6 +219,8 @@ def scenario_app(static_dir, variant, tlog):
 PATHS = ['/resp', '/empty', '/stream', '/ctx', '/ctx?format=json', '/json', '/text', '/branch/', '/branch', '/redir', '/raise404',
          '/ret403', '/boom', '/nonresp', '/post', '/static/a.txt', '/static/sub/bin.dat', '/static/empty', '/static/noext',
          '/static/missing', '/static/../x', '/_meta/', '/_meta/json/', '/reroute', '/reroute_raise', '/unknown/url', '/',
+         # slash redirects whose Location has to carry unusual decoded characters (header values must stay valid)
+         '/dir/plain', '/dir/a%20b', '/dir/%01x', '/dir/x%7Fy', '/dir/caf%C3%A9', '/dir/q%3Fr%23s', '/branch?x=%0Ay',
          '/item/5', '/item/+ 5', '/item/abc', '/ratio/- .5/1/+ 2', '/ratio/1e5/1/2', '/item/' + '9' * 5000]
 HEADERS = [{}, {'Accept': 'text/html'}, {'Accept': 'application/json'}, {'Accept-Encoding': 'gzip'},
            {'Accept': 'application/xml', 'Accept-Encoding': 'gzip, deflate'}]
@@ -327,13 +330,31 @@ def leg_wrappers(run, quick):
     recs = []
     tid = 0
     for n, tr in enumerate(trees):
-        for mode in ('ctor', 'add'):
+        for mode in ('ctor', 'add', 'nested'):
             subs = []
-            for k, lst in enumerate(tr['subs']):
-                subs.append(Application([('/r', lambda: Response('sub'))], middlewares=[cls_for(t)() for t in lst]))
+            if mode == 'nested':
+                # the same lists read as a CHAIN: subs[1] is embedded in subs[0], which is embedded in the outer application
+                if len(tr['subs']) < 2:
+                    continue
+                inner = None
+                for k in range(len(tr['subs']) - 1, -1, -1):
+                    ent = [('/r', lambda: Response('sub'))] + ([('/n', inner)] if inner is not None else [])
+                    try:
+                        inner = Application(ent, middlewares=[cls_for(t)() for t in tr['subs'][k]])
+                    except Exception as ex:  # noqa
+                        inner = ex
+                        break
+                if isinstance(inner, Exception):
+                    run.violation('wrapper-tree-construction-raised:%s' % type(inner).__name__, 'chain %r: %r' % (tr, inner),
+                                  {'leg': 'L2', 'tree': tr})
+                    continue
+                subs = [inner]
+            else:
+                for k, lst in enumerate(tr['subs']):
+                    subs.append(Application([('/r', lambda: Response('sub'))], middlewares=[cls_for(t)() for t in lst]))
             entries = [('/own', lambda: Response('own'))] + [('/s%d' % k, s) for k, s in enumerate(subs)]
             try:
-                if mode == 'ctor':
+                if mode in ('ctor', 'nested'):
                     app = Application(entries, middlewares=[cls_for(t)() for t in tr['outer']])
                     exp_subs = tr['subs']
                 else:
@@ -346,12 +367,15 @@ def leg_wrappers(run, quick):
                 run.violation('wrapper-tree-construction-raised:%s' % type(ex).__name__, 'tree %r: %r' % (tr, ex),
                               {'leg': 'L2', 'tree': tr})
                 continue
-            for path in ['/own'] + ['/s%d/r' % k for k in range(len(subs))] + ['/nowhere']:
+            paths = ['/own'] + ['/s%d/r' % k for k in range(len(subs))] + ['/nowhere']
+            if mode == 'nested':
+                paths += ['/s0' + '/n' * d + '/r' for d in range(1, len(tr['subs']))]
+            for path in paths:
                 del order[:]
                 run_wsgi_app(app, create_environ(path))
                 tid += 1
                 run.evaluations += 1
-                recs.append({'tid': tid, 'outer': tr['outer'], 'subs': exp_subs, 'observed': list(order),
+                recs.append({'tid': tid, 'outer': tr['outer'], 'subs': exp_subs, 'nested': mode == 'nested', 'observed': list(order),
                              '_mode': mode, '_path': path})
     acc, rej = tracecheck.validate(run, 'WsgiWrap_Trace', spec('WsgiWrap_Trace.tla'), cfgpath('WsgiWrap_Trace.cfg'), None,
                                    [{k: v for k, v in r.items() if not k.startswith('_')} for r in recs])
